@@ -55,7 +55,7 @@ var props = map[string]propCfg{
 		Thorough:  tierCfg{Runs: 120000, Workers: 16, Budget: 18 * time.Minute, Seeds: 5},
 		Rule:      "one run = 2-6 caller goroutines with 1-4 library calls each (FindRoute on both routers, ValidateRequest over JSON/form/multipart/text bodies with defaults on/off, multi-error, custom regex compilers, reading auth callbacks; ValidateResponse; Schema.VisitJSON/IsMatching in every mode; strict and non-strict middleware ServeHTTP; openapi3gen.NewSchemaRefForValue on compiled-in and per-run reflect.StructOf types) sharing one loaded+validated document (patterns carry the run marker: cold caches), both routers and two middleware instances, executed in a -race build under the zzsimrt scheduler with a seeded policy (serial, uniform-random switch probability 1/3..1/1000, biased towards sites touching shared state, PCT depth 1-3, round-robin quantum 1..1000) and sorted or seeded-permuted map iteration. Oracles: A no race report with a kin-openapi frame in both stacks / no runtime fatal; B every call's outcome equals the same call alone on a fresh document; C no deadlock on library locks, all calls return within the step cap; D the shared document serialises identically before and after. Non-trivial = at least one context switch happened inside library code; distinct = distinct (caller op-kind multiset, hash of the switch sequence projected to (from-site, to-site)) pairs.",
 		DesignRef: "§3 SIM-CONC",
-		Reach:     []string{"switch-inside-library", "calls-overlapped", "lock-contention", "map-order-permuted", "patterns-cold-at-start", "callback-crash-inside-call", "policy-random", "policy-biased", "policy-pct", "policy-rr", "policy-serial"}},
+		Reach:     []string{"switch-inside-library", "calls-overlapped", "lock-contention", "map-order-permuted", "patterns-cold-at-start", "first-use-in-process", "callback-crash-inside-call", "policy-random", "policy-biased", "policy-pct", "policy-rr", "policy-serial"}},
 	"C11": {Sim: "loader", Quick: tierCfg{Runs: 40000, Workers: 16, Budget: 60 * time.Second, Seeds: 1},
 		Thorough:  tierCfg{Runs: 700000, Workers: 16, Budget: 9 * time.Minute, Seeds: 5},
 		Rule:      "one run = one or two loads (fresh or reused Loader) of a generated multi-file layout in the simulated storage: root at one of {in-memory data, io.Reader, data+absolute path, data+http URL, relative file, absolute file, file:// URL, http, https}, 0-5 further documents (whole OpenAPI documents, bare single elements of each of the ten kinds, free-form JSON with fragments) in nested directories and on a second host, references of all ten resolver kinds planted at visited and unvisited positions in whole-file, fragment and missing-fragment form with chains/diamonds/cycles, canary references (parent escapes, absolute paths, http(s) and scheme-relative URLs), both switch settings, custom ReadFromURIFunc or the default reader (simulated os.ReadFile + RoundTripper), read faults. Invariant at every read event: switch off => the root location only (none at all for in-memory roots); switch on => location in the justified set J, and (custom reader) some already-delivered document refers to it. Non-trivial = the layout holds at least one reference; distinct = distinct (root form, reader, switch, reuse, file kinds, number of reads, faults) tuples.",
